@@ -164,10 +164,16 @@ def gen_case(rng, tier, avoid):
         op.pop('faults', None)
         op.pop('propagate', None)
         _rename_refs(op.get('kwargs'))
-    hist += out_spec + [{'op': 'write', 'fid': 'out_f0', 'path': 'outside.dlis', 'output_chunk_size': 1 << 20}]
-    if rng.random() < 0.3:
-        hist = out_spec[:3] + hist        # something before the block as well
-        hist = hist[:3] + hist[3:]
+    outside = out_spec + [{'op': 'write', 'fid': 'out_f0', 'path': 'outside.dlis', 'output_chunk_size': 1 << 20}]
+    r_out = rng.random()
+    if r_out < 0.3:
+        # the same specification is built and written OUTSIDE the mode first (accepted, with warnings), by unrelated objects:
+        # whatever the process learnt while accepting it must not soften the mode afterwards
+        hist = outside + hist
+    elif r_out < 0.5:
+        hist = out_spec[:3] + hist + out_spec[3:] + outside[-1:]        # something before the block as well
+    else:
+        hist += outside
     return {'scenario': {'env': {'tz': 'UTC'}, 'history': hist},
             'params': {'breach': breach, 'exit': exit_kind, 'depth': depth, 'form': block['form'], 'cross': cross}}
 
